@@ -60,7 +60,7 @@ RECURSIVE Chunk(_, _, _)
 Chunk(us, g, i) == IF us = <<>> THEN <<>>
                    ELSE LET n == IF Len(us) < g THEN Len(us) ELSE g
                         IN  <<[pts |-> i * 90000, pid |-> 0, units |-> SubSeq(us, 1, n)]>> \o Chunk(SubSeq(us, n + 1, Len(us)), g, i + 1)
-Stream(us, g) == [pes |-> Chunk(us, g, 0), twopids |-> FALSE, repeat |-> FALSE, emptypes |-> FALSE]
+Stream(us, g) == [pes |-> Chunk(us, g, 0), twopids |-> FALSE, repeat |-> FALSE, emptypes |-> FALSE, vbi |-> FALSE]
 
 RECURSIVE Flat(_)
 Flat(ss) == IF ss = <<>> THEN <<>> ELSE Head(ss) \o Flat(Tail(ss))
@@ -107,7 +107,8 @@ CasesEOK == {c \in CasesE : LastInPes(c)} \cup CasesV
 OtherPid(pid, i) == [pts |-> i * 90000 + 45000, pid |-> pid, units |-> T(IF pid = 1 THEN 10 + i ELSE 0, TRUE, 0, <<<<20, RC>>>>)]
 WithPids(s, two) == [s EXCEPT !.twopids = two, !.pes = Flat([i \in DOMAIN s.pes |-> <<s.pes[i], OtherPid(1, i), OtherPid(2, i)>>])]
 BaseA == DNoSub(TRUE) \o T(1, TRUE, 0, <<<<20, RA>>>>) \o DSame(TRUE) \o T(2, TRUE, 0, <<<<22, RC>>>>)
-CasesA == {[st |-> WithPids(Stream(BaseA, g), two), op |-> Opt(pg, 0)] : g \in {1, 2}, two \in BOOLEAN, pg \in {0, 100}}
+\* (the PMT may announce a teletext PID with the teletext descriptor or with the VBI teletext descriptor)
+CasesA == {[st |-> [WithPids(Stream(BaseA, g), two) EXCEPT !.vbi = vb], op |-> Opt(pg, 0)] : g \in {1, 2}, two \in BOOLEAN, pg \in {0, 100}, vb \in BOOLEAN}
           \cup {[st |-> WithPids(Stream(BaseA, 2), TRUE), op |-> Opt(100, 1)]}
 
 \* H: hexadecimal page numbers
